@@ -335,3 +335,58 @@ def r8(ctx):
     ctx.ob("_dispatcher:SSLDispatcher.select:pending-before-blocking", badp is None,
            "sock.pending() is consulted before every blocking select" if badp is None else
            "frames already decrypted into the TLS buffer (same segment as the previous frame or as the handshake response) are not delivered until more bytes arrive", "")
+
+
+@rule("R-C03-9", min_instances=1, title="the body of a rejected handshake (kept in the exception) does not depend on segmentation: it is read until the declared, bounded length or the end of the stream -- not with one transport read")
+def r9(ctx):
+    from .. import transfer
+    idx = ctx.index
+    q = "_handshake:_get_resp_headers"
+    loc = idx.loc(idx.func(q).node)
+    DECL = 9
+
+    def rh(I, run, args, kwargs, node):
+        return Tup((C(403), new_dict(run, {"content-length": C(str(DECL))}, False, "resp"), C("Forbidden")))
+
+    def tr(I, run, args, kwargs, node):
+        k = len([e for e in run.effects if e.name == "transport.recv"])
+        req = args[-1]
+        ch = run.choose(2, I.locof(node), f"transport read #{k}: data / end of stream or error")
+        if ch == 1:
+            run.effect("transport.recv", (req,), {"eof": TRUE}, node=node)
+            raise RaiseSig(run.alloc(HObj(CLOSED_EXC, {"args": Tup(())})), node)
+        v = Sym(f"chunk{k}", "bytes")
+        run.assume_range(App("len", (v,), "int"), 1, INF)
+        # a transport never returns more than was asked for
+        rq = I.resolve(run, req)
+        if isinstance(rq, C) and isinstance(rq.v, int):
+            run.assume_range(App("len", (v,), "int"), 1, rq.v)
+        run.effect("transport.recv", (req,), node=node, ret=v)
+        return v
+
+    I = Interp(idx, Config(stubs={"_http:read_headers": rh, "_socket:recv": tr, "sock.recv": tr}, loop_unroll=3))
+    outs = ctx.count_paths(I.explore(lambda run: I.call(run, I.make_fn(run, q), [Sym("sock", "obj")], {}, None)))
+    n = 0
+    bad = None
+    for o in outs:
+        if o.kind == "cutoff":
+            continue
+        reads = [e for e in o.effects if e.name == "transport.recv"]
+        if not reads:
+            continue
+        n += 1
+        if any("eof" in e.kwargs for e in reads):
+            continue  # the stream ended: whatever arrived is all there is
+        rem = C(DECL)
+        for e in reads:
+            rem = transfer.binop(I, o.run, ast.Sub(), rem, transfer._b_len(I, o.run, [e.ret], {}, None), None)
+        done = transfer.decide_cmp(I, o.run, "<=", rem, C(0), None, fork=False)
+        if done is not True:
+            bad = bad or (len(reads), o)
+    if n == 0:
+        raise AnalysisError("the error-body read was not reached")
+    ctx.ob(f"{q}:error-body-read-to-declared-length", bad is None, f"{n} paths: the body is read until {DECL} declared bytes or the end of the stream" if bad is None else
+           f"a rejected handshake with Content-Length {DECL}: the body is taken from {bad[0]} transport read(s) without establishing that the declared bytes have arrived -- "
+           f"when the response is split across segments the exception carries a truncated resp_body (what the caller observes depends on segmentation)", loc,
+           {"path": path_text(bad[1])} if bad else None)
+
